@@ -11,8 +11,10 @@ TRUSTED = seq_props.TRUSTED[:3] + [
     "ISEXP (the recursive export predicate) is well defined by recursion on the height of the tree (definitional axiom, both directions)",
 ]
 LEMMAS = [{"id": "L9", "statement": "import_(export(t)) is isomorphic to t; export(import_(d)) equals d up to empty 'children' lists; neither "
-           "call modifies its argument", "status": "not proved: DictImporter.__import builds nodes through the constructor (heap world) from a "
-           "dictionary (value world); covered by the bounded stand-in only"}]
+           "call modifies its argument", "status": "not proved as a whole: DictImporter.__import is proved to copy its argument, pop 'children' "
+           "from the copy, construct one node from the remaining attributes and import every child in order under it (effect-log "
+           "contract); that this yields an isomorphic tree (through the constructor contract, C02) and the two round-trip sentences "
+           "are covered by the bounded stand-in"}]
 
 
 IMPORT_BODY = '''
@@ -35,10 +37,9 @@ def importer_obligations(res):
     import ast
     from . import text_props
     rel = "anytree/importer/dictimporter.py"
-    f = text_props.fn(res, rel, "DictImporter", "__import")
-    if f:
-        text_props.syn(res, "C10", rel + ":DictImporter.__import/copy-pop-construct-recurse-in-order",
-                       text_props.dump(f.body) == text_props.dump(ast.parse(IMPORT_BODY).body) and ast.unparse(f.node.args) == "self, data, parent=None")
+    from contracts import jsonio
+    _, ispecs = jsonio.build_importer()
+    seq_props.collect_specs(res, ispecs)        # effect-log contract of __import (copy, pop from the copy, construct, import every child)
     f = text_props.fn(res, rel, "DictImporter", "import_")
     if f:
         text_props.syn(res, "C10", rel + ":DictImporter.import_/delegates", text_props.dump(f.body) == text_props.dump(ast.parse("return self.__import(data)").body))
